@@ -29,13 +29,32 @@
    * C20_pycalver_rec_example, C20_pycalver_text_example, C20_bump_example, C20_dispatch_example —
                                non-vacuity: closed instances through the whole model pipeline
 
-  PARTIAL: the composition of parts over a whole pattern (literal separators, the first-match +
-  full-length reading of `parse_version_info`, `str.format`) is validated by the correspondence
-  ops v1_compile_str/v1_parse/v1_format/v1_incr and the render→read→re-render oracle of
-  harness/props/c20.py, not proved here.
+  THE COMPOSITION of parts over a whole pattern (literal separators, composites, the first-match +
+  full-length reading of `parse_version_info`, `_parse_pattern_groups`, `_parse_field_values`) is proved on
+  the legacy pattern TREE of Model/V1Tree.lean (last section of this file):
+
+   * C20_tree_accepted_in_full — for every well-formed tree and every record in the domain of its parts,
+                               `re.match` of the compiled regex on the rendered text consumes all of it and
+                               captures exactly the rendered part texts
+   * C20_tree_roundtrip, C20_tree_roundtrip_of_date — the record read back agrees on EVERY part of the
+                               pattern and renders to the same text
+   * C20_tree_doc_patterns, C20_roundtrip_documented, C20_is_valid_documented — the same THROUGH THE MODEL'S
+                               STRING PIPELINE (`v1ParseVersionInfo`, `v1IsValid`) for the documented
+                               composites and combinations, whose tree compiles (kernel-evaluated) to exactly
+                               the regex `compile_pattern` builds
+   * C20_tree_tie, C20_composites_tie, C20_tree_render_tie — tree vs string surgery, compile and render
+   * C20_calOk_needed_witness — why the calendar hypothesis is there ({year}.{doy} on day 366 of 2023)
+
+  PARTIAL: that `str.replace` over FULL_PART_FORMATS + `str.format` render a pattern as the tree does is
+  kernel-evaluated on the documented patterns and sample records (C20_tree_render_tie) and otherwise
+  validated by the correspondence ops v1_compile_str/v1_parse/v1_format/v1_incr and the
+  render→read→re-render oracle of harness/props/c20.py; the rough-edge parts ({dom_short}, {doy_short},
+  {BB}…, {iso_week}, {us_week}) and the pep440 search patterns lie outside the tree's `wf`.
 -/
 import BumpverVerif.Model.V1
+import BumpverVerif.Model.V1Tree
 import BumpverVerif.Proofs.V1Lemmas
+import BumpverVerif.Proofs.V1Compose
 namespace BV
 
 /-! ### the run-time table mutation -/
@@ -399,5 +418,176 @@ theorem C20_test_greater (old pat : Str) (fl : IncrFlags) (dg : Bool) (date toda
               · next hacc => exact (C20_gate_greater pat old n false [] hacc).2
               all_goals cases hg
           all_goals cases h
+
+/-! ## The composition over whole legacy patterns (pattern tree, Model/V1Tree.lean) -/
+
+/-- ACCEPTED IN FULL: for every well-formed legacy pattern tree (`V1Pat.wf`: supported parts only, every
+    variable-width numeric part — {MAJOR}…, {MM}…, {build_no}, {bid}, {BID}, {month_short} — followed by a
+    non-digit, nothing that starts with `-` after the optional `-tag` of {release} / {pycalver}) and every
+    record inside the domain of its parts (`V1Pat.vok`), `re.match` of the compiled regex on the rendered
+    text consumes ALL of it and its named groups are exactly the rendered part texts (a composite's group
+    holds the text of the whole composite). -/
+theorem C20_tree_accepted_in_full (p : V1Pat) (v : V1Info) (r : Re) (hwf : V1Pat.wf p FSet.endOnly = true)
+    (hv : V1Pat.vok v p = true) (hr : V1Pat.compile p = some r) :
+    reMatch r (V1Pat.render v p) =
+      some { start := 0, stop := (V1Pat.render v p).length, caps := (V1Pat.caps v p).reverse } :=
+  v1_compose_match v p r hwf hv hr
+
+/-- … also in the middle of other text: the FIRST success of the compiled regex on the rendered text
+    followed by any continuation the pattern admits stops exactly at the end of the rendered text -/
+theorem C20_tree_accepted_before (p : V1Pat) (v : V1Info) (F : FSet) (r : Re) (k : Str) (st : MSt)
+    (hwf : V1Pat.wf p F = true) (hv : V1Pat.vok v p = true) (hr : V1Pat.compile p = some r)
+    (hk : F.has k = true) (hst : st.rest = V1Pat.render v p ++ k) :
+    ∃ st', (r.m st).head? = some st' ∧ st'.rest = k ∧ st'.caps = (V1Pat.caps v p).reverse ++ st.caps :=
+  v1_compose_head v p F r k st hwf hv hr hk hst
+
+/-- THE ROUND TRIP: the rendered text is read (`parse_version_info` after compilation: first match, full
+    length, `groupdict`, `_parse_pattern_groups`, `_parse_field_values`) as a record `v'` that agrees with
+    `v` on EVERY part of the pattern (`V1Pat.agree`: same part texts), and rendering `v'` reproduces the
+    text.  `wfTop` adds what `re.compile` and `_parse_pattern_groups` demand (no group twice, no field
+    twice); `calOk` (decidable) says the calendar fields the pattern shows are consistent — `_parse_field_values`
+    REPLACES month and day by `date_from_doy(year, doy)` and recomputes the day of year from year/month/day
+    (`C20_calOk_needed_witness`); it holds for every record whose calendar is that of a date
+    (`C20_tree_roundtrip_of_date`). -/
+theorem C20_tree_roundtrip (p : V1Pat) (v : V1Info) (r : Re) (hwf : V1Pat.wfTop p = true)
+    (hv : V1Pat.vok v p = true) (hc : V1Pat.calOk v p = true) (hr : V1Pat.compile p = some r) :
+    ∃ v', v1c_parseWithRe r (V1Pat.render v p) = .ok v' ∧ V1Pat.agree v v' p = true ∧
+      V1Pat.render v' p = V1Pat.render v p :=
+  v1_roundtrip p v r hwf hv hc hr
+
+/-- the round trip for "every date": a record whose year / month / day / day-of-year are those of a
+    valid date (what `cal_info(date)` produces, hence what every bump produces) -/
+theorem C20_tree_roundtrip_of_date (p : V1Pat) (v : V1Info) (r : Re) (y m d : Nat)
+    (hd : validDate y m d = true) (hy : v.year = some y) (hm : v.month = some m) (hdm : v.dom = some d)
+    (hj : v.doy = some (dayOfYear y m d)) (hwf : V1Pat.wfTop p = true) (hv : V1Pat.vok v p = true)
+    (hr : V1Pat.compile p = some r) :
+    ∃ v', v1c_parseWithRe r (V1Pat.render v p) = .ok v' ∧ V1Pat.agree v v' p = true ∧
+      V1Pat.render v' p = V1Pat.render v p :=
+  v1_roundtrip p v r hwf hv (v1c_calOk_of_date p v y m d hd hy hm hdm hj) hr
+
+/-- `v1c_parseWithRe` IS the model's `parse_version_info` after `compile_pattern` -/
+theorem C20_parse_is_parseWithRe (s raw : Str) (r : Re) (h : v1CompilePattern raw raw = .ok r) :
+    v1ParseVersionInfo s raw = v1c_parseWithRe r s :=
+  v1c_parseVersionInfo_of s raw r h
+
+/-- the documented composites ({pycalver}, {semver}, the four spelled-out forms of
+    `_normalized_pattern`) and combinations of the {year}/{month}/{dom}/{doy}/{quarter}/{build_no}/
+    {release}/{MAJOR}/{MINOR}/{PATCH} style parts -/
+def c20DocPatterns : List String := [
+  "{pycalver}", "{semver}", "v{year}{month}{build}{release}", "{year}{month}{build}{release}",
+  "v{year}{build}{release}", "{year}{build}{release}", "{calver}{build}{release}",
+  "v{year}{month}.{build_no}{release}", "{year}.{month}.{dom}", "{year}{month}{dom}", "{year}.{doy}",
+  "{yyyy}q{quarter}.{build_no}", "{yy}.{month_short}.{PATCH}", "{MAJOR}.{MINOR}.{PATCH}",
+  "{MAJOR}.{MINOR}.{PATCH}-{tag}", "{semver}{release}", "{year}.{month}.{MINOR}{release}", "{year}.{BID}"]
+
+set_option maxRecDepth 100000 in
+/-- NON-VACUITY, scope AND THE TIE for those patterns (kernel-evaluated on the regenerated tables): each
+    tokenises to a tree that is `wfTop` and compiles to EXACTLY the regex `compile_pattern(raw, raw)` —
+    `_normalized_pattern`, the escape loop, `_replace_pattern_parts`, `re.compile` — produces -/
+theorem C20_tree_doc_patterns :
+    c20DocPatterns.all (fun s => match V1Pat.tokenize s.toList with
+      | some p => p.wfTop && decide (v1c_exceptOk (v1CompilePattern s.toList s.toList) = p.compile) &&
+                  p.compile.isSome
+      | none => false) = true := by
+  decide +kernel
+
+/-- THE ROUND TRIP THROUGH THE MODEL'S STRING PIPELINE for the documented patterns: for every record in
+    the domain, the text the tree renders is read by `parse_version_info(text, raw_pattern)` as a record
+    that agrees on every part and renders to the same text -/
+theorem C20_roundtrip_documented (s : String) (hs : s ∈ c20DocPatterns) (p : V1Pat)
+    (hp : V1Pat.tokenize s.toList = some p) (v : V1Info) (hv : V1Pat.vok v p = true)
+    (hc : V1Pat.calOk v p = true) :
+    ∃ v', v1ParseVersionInfo (V1Pat.render v p) s.toList = .ok v' ∧ V1Pat.agree v v' p = true ∧
+      V1Pat.render v' p = V1Pat.render v p := by
+  have h := C20_tree_doc_patterns
+  rw [List.all_eq_true] at h
+  have h := h s hs
+  rw [hp] at h
+  simp only [Bool.and_eq_true, decide_eq_true_eq] at h
+  obtain ⟨⟨hwf, heq⟩, hsome⟩ := h
+  cases hr : V1Pat.compile p with
+  | none => rw [hr] at hsome; cases hsome
+  | some r =>
+    rw [hr] at heq
+    have hcp : v1CompilePattern s.toList s.toList = .ok r := by
+      cases hx : v1CompilePattern s.toList s.toList with
+      | error e => rw [hx] at heq; cases heq
+      | ok r' =>
+        rw [hx] at heq
+        simp only [v1c_exceptOk, Option.some.injEq] at heq
+        rw [heq]
+    obtain ⟨v', h1, h2, h3⟩ := v1_roundtrip p v r hwf hv hc hr
+    refine ⟨v', ?_, h2, h3⟩
+    rw [v1c_parseVersionInfo_of _ _ r hcp]
+    exact h1
+
+/-- "rendered versions are accepted by their pattern": `is_valid` says yes -/
+theorem C20_is_valid_documented (s : String) (hs : s ∈ c20DocPatterns) (p : V1Pat)
+    (hp : V1Pat.tokenize s.toList = some p) (v : V1Info) (hv : V1Pat.vok v p = true)
+    (hc : V1Pat.calOk v p = true) : v1IsValid (V1Pat.render v p) s.toList = .ok true := by
+  obtain ⟨v', h, _, _⟩ := C20_roundtrip_documented s hs p hp v hv hc
+  unfold v1IsValid
+  rw [h]
+
+/-- more combinations, among them the rough-edge parts and the pep440 search patterns (outside `wf`, but
+    the tree still compiles as the string surgery does), regex metacharacters as literal text, and a
+    pattern `re.compile` rejects (a group name twice) -/
+def c20TiePatterns : List String := [
+  "{dom_short}.{doy_short}.{BBB}", "{iso_week}{us_week}{yy}", "{release_tag}{MM}.{PPP}",
+  "a-b.c+d*e?f[g]h(i)j|k\\l {year}", "{pycalver}{release}", "{year}.{month_short}.{dom}-{BID}"]
+
+set_option maxRecDepth 100000 in
+/-- THE TIE (compile side, Boolean form of the driver op) on those -/
+theorem C20_tree_tie : c20TiePatterns.all (fun s => v1c_compileTie s.toList) = true := by
+  decide +kernel
+
+set_option maxRecDepth 100000 in
+/-- the composite trees of Model/V1Tree.lean are what `_init_composite_patterns` stored in
+    `PART_PATTERNS` (compared as compiled regexes) -/
+theorem C20_composites_tie :
+    v1c_composites.all (fun nb => match nb.2.compile, v1c_partRe nb.1 with
+      | some a, some b => Re.beq a b
+      | _, _ => false) = true := by
+  decide +kernel
+
+/-- sample records: a December date with a `beta` tag and a short id, a leap day with the `final` tag
+    and a long id -/
+def c20SampleA : V1Info :=
+  { year := some 2017, quarter := some 4, month := some 12, dom := some 5, doy := some 339, isoWeek := some 49,
+    usWeek := some 48, major := 1, minor := 2, patch := 3, bid := "0033".toList, tag := "beta".toList }
+def c20SampleB : V1Info :=
+  { year := some 2024, quarter := some 1, month := some 2, dom := some 29, doy := some 60, isoWeek := some 9,
+    usWeek := some 8, major := 0, minor := 10, patch := 123456, bid := "123456".toList, tag := "final".toList }
+
+set_option maxRecDepth 100000 in
+/-- THE TIE (render side): on every documented pattern and both sample records the tree renders EXACTLY
+    what `format_version` (FULL_PART_FORMATS, the kwargs, `str.format`) writes -/
+theorem C20_tree_render_tie :
+    c20DocPatterns.all (fun s => v1c_renderTie s.toList c20SampleA && v1c_renderTie s.toList c20SampleB) = true := by
+  decide +kernel
+
+set_option maxRecDepth 100000 in
+/-- a concrete record in the domain: v201712.0033-beta under {pycalver} (hypotheses satisfiable) -/
+theorem C20_tree_example :
+    (match V1Pat.tokenize "{pycalver}".toList with
+     | some p => p.wfTop && V1Pat.vok c20SampleA p && V1Pat.calOk c20SampleA p &&
+                 (V1Pat.render c20SampleA p == "v201712.0033-beta".toList)
+     | none => false) = true := by
+  decide +kernel
+
+set_option maxRecDepth 100000 in
+/-- WHY `calOk` IS THERE: `{year}.{doy}` is `wfTop`, the record (2023, day 366) lies in the domain of both
+    parts ({doy} recognises 001..366 whatever the year), but 2023 has 365 days: `date_from_doy` runs into
+    2024-01-01, month and day are taken from it while the YEAR IS KEPT, and the day of year is recomputed —
+    "2023.366" reads back as day 1 of 2023 and renders as "2023.001". -/
+theorem C20_calOk_needed_witness :
+    (match V1Pat.tokenize "{year}.{doy}".toList with
+     | some p =>
+       let v : V1Info := { v1RecBase with year := some 2023, doy := some 366 }
+       p.wfTop && V1Pat.vok v p && !V1Pat.calOk v p && (V1Pat.render v p == "2023.366".toList)
+     | none => false) = true ∧
+    (v1ParseVersionInfo "2023.366".toList "{year}.{doy}".toList).toOption.map (fun v => (v.year, v.month, v.dom, v.doy))
+      = some (some 2023, some 1, some 1, some 1) := by
+  refine ⟨?_, ?_⟩ <;> decide +kernel
 
 end BV
